@@ -48,7 +48,12 @@ it (unless reset-on-return was explicitly disabled, where the statement makes no
 (Isolation changes made by hand on the raw DBAPI connection, behind SQLAlchemy's back, are not part of the
 statement -- the pool cannot know about them -- and are not explored.)
 
-Mutations caught: see the end of this docstring (filled in by the builder).
+Mutations caught (private copy, README rule 6; each produced VIOLATION lines on the quick tier):
+ M1 engine/base.py Connection.invalidate: passes soft=True (DBAPI connection not closed)       -> O5-lost-work-published
+ M2 pool/base.py _ConnectionRecord.checkin: finalize_callback entries not called               -> O3-isolation-state
+ M3 pool/base.py checkout weakref callback: transaction_was_reset=True on the GC path          -> O1-open-transaction
+ M4 engine/base.py Connection.close: `_transaction.close()` skipped, skip_reset still True     -> O1-open-transaction
+ M6 pool/base.py _ConnectionFairy._reset: rollback branch taken for reset_commit only          -> O1-open-transaction
 """
 from __future__ import annotations
 
